@@ -8,14 +8,21 @@ package main
 
 import (
 	"fmt"
+	"strings"
 
 	"verifharness/pagedoc"
 )
 
+// stripWS: the non-space characters of an observed line; soft hyphens are left out, and so is
+// the hyphen shown after a soft hyphen at the very end of a line (as Check/C02.v strip_shy does)
 func stripWS(s string) []rune {
 	var out []rune
+	rs := []rune(s)
+	if n := len(rs); n >= 2 && rs[n-1] == '-' && rs[n-2] == pagedoc.SoftHyphen {
+		s = string(rs[:n-1])
+	}
 	for _, c := range s {
-		if c != ' ' && c != '\t' && c != '\n' && c != '\r' {
+		if c != ' ' && c != '\t' && c != '\n' && c != '\r' && c != pagedoc.SoftHyphen {
 			out = append(out, c)
 		}
 	}
@@ -143,6 +150,7 @@ type paraFacts struct {
 	from, to  []int
 	n         int   // length of the expected text
 	boxPages  []int // page of every principal box of the element
+	sameLine  bool  // two of those boxes are direct children of one line box
 	linePages []int // page of every line
 }
 
@@ -179,6 +187,7 @@ func newStructure(d *pagedoc.TextDoc, occ map[int][][]string, lines []lineObs, f
 		for _, fr := range frags {
 			if fr.Para == p.ID {
 				f.boxPages = append(f.boxPages, fr.Page)
+				f.sameLine = f.sameLine || fr.SameLine
 			}
 		}
 		for _, l := range lines {
@@ -341,6 +350,11 @@ func (s *structure) diagnose(p *pagedoc.TPara, k int) paraDiag {
 		if q.Block && q.AvoidAnc {
 			flags["oof-below-avoid"] = true
 		}
+		if len(qf.boxPages) == 0 && q.Role == "float" && !q.Block && tallInlineBesideFloat(s.d, id) {
+			// a float written in a line of a paragraph that also holds an inline box taller
+			// than the strut (own line-height / font-size), without any box
+			flags["oof-none-in-line-with-tall-inline"] = true
+		}
 		if len(qf.boxPages) == 0 {
 			flags["oof-none"] = true
 			if q.Block {
@@ -358,10 +372,20 @@ func (s *structure) diagnose(p *pagedoc.TPara, k int) paraDiag {
 					flags["oof-twice"] = true
 				}
 			}
+			if qf.sameLine && qf.boxPages[0] == qf.boxPages[len(qf.boxPages)-1] && directFloatItem(s.d, id) {
+				// ... as two children of ONE line box, and all its boxes are on one page: a
+				// float of the line that was not broken by a page end, laid out twice by the
+				// line itself.  (The stale continuations of a float broken between pages are
+				// also put into the line that holds the float: those have boxes on several pages;
+				// and a float INSIDE an inline box is laid out twice on the unchanged tree when
+				// that inline box is split a second time: only a float that is a direct child of
+				// its paragraph's element counts here.)
+				flags["oof-twice-in-one-line"] = true
+			}
 		}
 		chain = append(chain, map[string]interface{}{"id": id, "role": q.Role, "block_level": q.Block, "box_pages": qf.boxPages, "line_pages": qf.linePages})
 	}
-	for _, k := range []string{"in-oof", "oof-has-float", "oof-has-abspos", "oof-child-of-avoid", "oof-float-in-avoid-moved-whole", "oof-below-avoid", "oof-none", "oof-none-block", "oof-docend", "oof-split", "oof-twice"} {
+	for _, k := range []string{"in-oof", "oof-has-float", "oof-has-abspos", "oof-child-of-avoid", "oof-float-in-avoid-moved-whole", "oof-below-avoid", "oof-none", "oof-none-block", "oof-none-in-line-with-tall-inline", "oof-docend", "oof-split", "oof-twice", "oof-twice-in-one-line"} {
 		if flags[k] {
 			dg.Tags = append(dg.Tags, k)
 		}
@@ -387,6 +411,41 @@ func (s *structure) diagnose(p *pagedoc.TPara, k int) paraDiag {
 	return dg
 }
 
+// tallInlineBesideFloat: the paragraph that holds the float item `id` in its inline content
+// (directly or inside spans) also holds a span with a line-height / font-size of its own
+func tallInlineBesideFloat(d *pagedoc.TextDoc, id int) bool {
+	var has func(its []*pagedoc.TItem, f func(*pagedoc.TItem) bool) bool
+	has = func(its []*pagedoc.TItem, f func(*pagedoc.TItem) bool) bool {
+		for _, it := range its {
+			if f(it) || (it.Kind == pagedoc.TSpan && has(it.Kids, f)) {
+				return true
+			}
+		}
+		return false
+	}
+	for _, p := range d.Paras {
+		if has(p.Items, func(it *pagedoc.TItem) bool { return it.Kind == pagedoc.TFloat && it.Para != nil && it.Para.ID == id }) {
+			return has(p.Items, func(it *pagedoc.TItem) bool {
+				return it.Kind == pagedoc.TSpan && (strings.Contains(it.Edge, "line-height:") || strings.Contains(it.Edge, "font-size:"))
+			})
+		}
+	}
+	return false
+}
+
+// directFloatItem: the paragraph id is a float written directly in the inline content of its
+// parent paragraph (not inside a span)
+func directFloatItem(d *pagedoc.TextDoc, id int) bool {
+	for _, p := range d.Paras {
+		for _, it := range p.Items {
+			if it.Kind == pagedoc.TFloat && it.Para != nil && it.Para.ID == id {
+				return true
+			}
+		}
+	}
+	return false
+}
+
 // lostWordBeforeFloat: the missing segment [from, to) of the paragraph's own non-space text
 // lies inside the word that immediately precedes a float item (no white space between the
 // word and the float) and runs up to the float
@@ -399,6 +458,9 @@ func lostWordBeforeFloat(p *pagedoc.TPara, from, to int) bool {
 			switch it.Kind {
 			case pagedoc.TText:
 				for _, c := range it.Text {
+					if c == pagedoc.SoftHyphen {
+						continue
+					}
 					if c == ' ' || c == '\t' || c == '\n' || c == '\r' {
 						wordStart = -1
 					} else {
